@@ -306,6 +306,38 @@ def r_converter_needs_module(r, prog):
     r.floor(1)
 
 
+
+def r_whitespace_agreement(r, prog):
+    """The directive lexer panics on white space "that should have been skipped": safe only while the skipper and the classifier use the same predicate."""
+    import guards
+    PL = "slicec::parsers::preprocessor::lexer::Lexer::<'input>::"
+    sk = prog.fn(PL + 'skip_inline_whitespace')
+    adv = [c for c in sk.calls() if c.name() == 'advance_buffer' and not sk.blocks[c.bb].get('cleanup')]
+    lx = prog.fn(PL + 'lex_next_preprocessor_token')
+    pn = [c for c in lx.calls() if 'panic' in c.name() and not lx.blocks[c.bb].get('cleanup')]
+    if len(adv) != 1 or not pn:
+        raise AnchorMissing('skip loop / panic arm of the preprocessor lexer')
+    gs = guards.guard_set(prog, sk, adv[0].bb)
+    skip_pred = sorted(re.sub(r'peek\(arg1\.buffer\) as Some\.0', 'c', g) for g in gs if 'is Some' not in g)
+    for c in pn:
+        gp = guards.guard_set(prog, lx, c.bb)
+        ws = [g for g in gp if 'whitespace' in g]
+        # the panic arm is taken for: is_whitespace(c) and c != '\n' ; the skipper consumes: is_whitespace(c) and c != '\n'
+        if skip_pred == ['Ne(10,c)', 'is_whitespace(c)'] and ws == ['is_whitespace(arg2)'] and 'arg2 not in {10}' in gp:
+            r.ok('the characters the directive lexer refuses to see (white space other than a line feed) are exactly those skip_inline_whitespace consumes')
+        else:
+            r.finding('whitespace-skipper-classifier-disagree', c.span,
+                      'skip_inline_whitespace consumes characters with %s, while lex_next_preprocessor_token panics for characters with %s: a character in the second set but not the first reaches the panic' % (skip_pred, [g for g in gp if 'arg2' in g]))
+    callers = [c for c in prog.callers_of(PL + 'lex_next_preprocessor_token')]
+    nx = prog.fn("<slicec::parsers::preprocessor::lexer::Lexer<'input> as core::iter::traits::iterator::Iterator>::next")
+    sks = [c for c in nx.calls() if c.name() == 'skip_inline_whitespace' and not nx.blocks[c.bb].get('cleanup')]
+    peeks = [c for c in callers if c.fn is nx]
+    if sks and peeks and all(any(nx.dominates(s_.bb, c.bb) for s_ in sks) for c in peeks):
+        r.ok('every character given to the directive lexer was peeked after skipping inline white space')
+    else:
+        r.finding('directive-lexer-without-skip', nx.span, 'lex_next_preprocessor_token can be given a character that was not preceded by skip_inline_whitespace')
+    r.floor(2)
+
 def run(ctx):
     prog = ctx.prog
     ctx.run_rule('C01.1', 'T7', 'panic-site ledger over everything reachable in slicec lib+bin', r_panic_ledger, prog)
@@ -315,6 +347,8 @@ def run(ctx):
     ctx.run_rule('C01.2c', 'T8', 'cycle detector recursion guard (argument of SCC cycle_detector)', c05.r_recursion_guard, prog)
     ctx.run_rule('C01.2d', 'T8', 'inheritance loops rejected before the base closure is computed; guarded search (SCCs all_base_interfaces, inheritance_search)', c05.r_inheritance, prog)
     ctx.run_rule('C01.2e', 'T2', 'self-containing aliases rejected before any recursive walk over type expressions (argument of SCCs type_string, typeref_visit, cycle_detector, dictionary_key)', c05.r_alias_through_anonymous, prog)
+    ctx.run_rule('C01.1b', 'T6', 'white space skipper and classifier of the directive lexer agree (argument of the "should have been skipped" panic)', r_whitespace_agreement, prog)
+    ctx.run_rule('C01.2f', 'T10', 'fresh search state per root; candidates scan on every path (argument of SCCs all_base_interfaces, cycle_detector)', c05.r_search_state_and_identity, prog)
     ctx.run_rule('C01.3d', 'T9', 'alias chain loop: membership exit and growing chain (loop ledger variant)', c05.r_alias_loop, prog)
     ctx.run_rule('C01.3a', 'T9', 'every loop consumes on every path round it, or is in the loop ledger with its progress calls', r_loops, prog)
     ctx.run_rule('C01.3b', 'T9', 'lexers: no token at end of buffer without a state change', r_lexer_eof_state, prog)
